@@ -11,6 +11,7 @@ Args == PSeqs(2) \cup {<< <<1, UNHASHABLE>> >>, << <<1, 2>>, <<2, UNHASHABLE>> >
 Ops == {Op("setitem", s, k, v, 0, <<>>) : s \in Sides, k \in Atoms, v \in Atoms \cup {UNHASHABLE}}
   \cup {Op(n, s, k, 0, 0, <<>>) : n \in {"delitem", "getitem"}, s \in Sides, k \in Atoms}
   \cup {Op(n, s, 0, 0, 0, a) : n \in {"update", "ior"}, s \in Sides, a \in Args}
+  \cup {Op("update_failing", s, 0, 0, 0, a) : s \in Sides, a \in PSeqs(2)}
   \cup {Op(n, "fwd", 0, 0, 0, a) : n \in {"ctor", "unique"}, a \in PSeqs(2)}
   \cup {Op("setdefault", s, k, 0, d, <<>>) : s \in Sides, k \in Atoms, d \in {-1} \cup Atoms}
   \cup {Op("pop", s, k, 0, d, <<>>) : s \in Sides, k \in Atoms, d \in {-1, 0}}
